@@ -17,6 +17,11 @@ class LA:                   # class with attributes for IsAttr
 def pos(v): return isinstance(v, int) and v > 0
 def nonempty(v): return bool(v)
 def even(v): return isinstance(v, int) and v % 2 == 0
+NAN = float('nan')         # an object that is not equal to itself (IsEqual[NAN] means `== NAN`, which NAN itself does not satisfy)
+class NeverEq:
+    __hash__ = object.__hash__
+    def __eq__(self, other): return False
+NEQ = NeverEq()
 
 T = TypeVar('T'); TB = TypeVar('TB', bound=L0); TC = TypeVar('TC', L0, L1); NT = NewType('NT', L0)
 @runtime_checkable
@@ -107,6 +112,15 @@ NULLARY += ['type[L0]', 'type[int]', 'type[Union[L0, int]]', 'type[TB]', 'tuple[
 LEAVES_EXT += ['type[L1]', 'Annotated[object, ISEQ(5), IS(gt3)]']
 NULLARY += ['GD[L0, T]', 'GD[L0, GS[L1]]', 'GD[GL[L1], GS[int]]', 'GL[GL[L0]]', 'GD[str, GD[int, L0]]', 'list[GD[L0, GL[L1]]]']
 UNARY += ['GS[{0}]']
+# PEP 646 fixed-length unpacking inside tuple hints (first / middle / last / nested): still fixed-length tuples
+NS['Unpack'] = __import__('typing').Unpack
+NULLARY += ['tuple[*tuple[L0, L1], int]', 'tuple[int, *tuple[L0, L1]]', 'tuple[L0, *tuple[L1], int]', 'tuple[Unpack[tuple[L0, L1]], int]', 'tuple[*tuple[L0, *tuple[L1, int]], str]',
+            'list[tuple[*tuple[L0, L1], int]]']
+# unions whose members are all container hints (no plain class), at the root and nested inside each kind of container: the walrus that
+# localises the sampled item is shared by all alternatives
+NULLARY += ['Union[list[L0], tuple[L1, ...]]', 'list[Union[list[L0], tuple[L1, ...]]]', 'list[Union[list[L0], Sequence[L1], frozenset[int]]]',
+            'dict[str, Union[list[L0], frozenset[L1]]]', 'tuple[Union[list[L0], Sequence[L1]], int]', 'set[Union[tuple[L0, ...], frozenset[L1]]]',
+            'Mapping[Union[tuple[L0, ...], frozenset[L1]], Union[list[L0], dict[str, L1]]]']
 def sample_shapes(depth, n, seed, leaves=LEAVES_EXT):
     """seeded random shapes of exactly the given depth"""
     rnd = random.Random(seed)
